@@ -2991,6 +2991,18 @@ structure DerivedStore where
   guard : DerivedGuard
   deriving DecidableEq, Repr
 
+/-- an attribute written by a method that is not a constructor / `add_…` method, from values
+    that depend on the method's arguments: `used` = arguments the stored value depends on,
+    `keyedOn` = arguments the method compares / indexes by before re-using the stored value -/
+structure GetterStore where
+  file : String
+  func : String
+  attr : String
+  line : Nat
+  used : List String
+  keyedOn : List String
+  deriving DecidableEq, Repr
+
 structure ArgStore where
   file : String
   func : String
@@ -3461,6 +3473,59 @@ def _c20_copy_sites(src):
 # `self.X = <expression reading one of them>` in the method must run on every call: an enclosing
 # `if` whose test looks at `self.X` (is None / hasattr / truthiness) makes it `onlyIfUnset`.
 
+# classes whose getters must be functions of their current arguments: every method except
+# __init__ / add_* is searched for stores to attributes of self
+C20_GETTER_CLASSES = [("oqupy/control.py", "Control"), ("oqupy/control.py", "ChainControl")]
+
+
+def _c20_getter_stores(src):
+    out = []
+    for rel, cls in C20_GETTER_CLASSES:
+        tab = _ClassTable(src, rel)
+        if cls not in tab.classes:
+            raise Untranslatable("%s has no class %s" % (rel, cls))
+        for m in tab.classes[cls].body:
+            if not isinstance(m, ast.FunctionDef) or m.name == "__init__" or m.name.startswith("add_"):
+                continue
+            if any(isinstance(d, ast.Attribute) and d.attr in ("setter", "deleter")
+                   for d in m.decorator_list):
+                continue
+            params = [a.arg for a in m.args.args][1:]
+            parents = {}
+            for n in ast.walk(m):
+                for ch in ast.iter_child_nodes(n):
+                    parents[ch] = n
+            for n in ast.walk(m):
+                tgts = []
+                if isinstance(n, ast.Assign):
+                    tgts = n.targets
+                elif isinstance(n, (ast.AugAssign, ast.AnnAssign)):
+                    tgts = [n.target]
+                for t in tgts:
+                    base, subs = t, []
+                    while isinstance(base, ast.Subscript):
+                        subs.append(base.slice)
+                        base = base.value
+                    ch = attr_chain(base) if isinstance(base, ast.Attribute) else None
+                    if ch is None or len(ch) != 2 or ch[0] != "self":
+                        continue
+                    value = getattr(n, "value", None)
+                    names = lambda e: {x.id for x in ast.walk(e) if isinstance(x, ast.Name)}
+                    used = [p_ for p_ in params if value is not None and p_ in names(value)]
+                    keyed = [p_ for p_ in params if any(p_ in names(sl) for sl in subs)]
+                    p_ = parents.get(n)
+                    while p_ is not None and p_ is not m:
+                        if isinstance(p_, ast.If):
+                            # a comparison with the arguments counts as a key, `is None` does not
+                            for c in ast.walk(p_.test):
+                                if isinstance(c, ast.Compare) and not any(
+                                        isinstance(o, (ast.Is, ast.IsNot)) for o in c.ops):
+                                    keyed += [q for q in params if q in names(c) and q not in keyed]
+                        p_ = parents.get(p_)
+                    out.append((rel, "%s.%s" % (cls, m.name), ch[1], n.lineno, used, keyed))
+    return out
+
+
 C20_DERIVED_ENTRIES = [
     ("oqupy/pt_tebd.py", "PtTebd.initialize", ["_parameters", "_system_chain"]),
 ]
@@ -3543,7 +3608,16 @@ C20_ARRAY_ENTRIES = [
      "self._system_correlations", None),
     ("oqupy/bath_dynamics.py", "TwoTimeBathCorrelations.occupation", "self._system_correlations", None),
     ("oqupy/bath_dynamics.py", "TwoTimeBathCorrelations.correlation", "self._system_correlations", None),
+    # chains: the stored Liouvillians in the getter, and Liouvillians handed to the gate builders
+    ("oqupy/system.py", "SystemChain.get_nn_full_liouvillians", "self._nn_liouvillians[*]", None),
+    ("oqupy/system.py", "SystemChain.get_nn_full_liouvillians", "self._site_liouvillians[*]", None),
+    ("oqupy/mps_mpo.py", "compute_nn_gate", "liouvillian", None),
+    ("oqupy/mps_mpo.py", "compute_trotter_layers", "nn_full_liouvillians", "liouv"),
 ]
+
+# entry functions that may leave the array alone altogether (it is only read)
+C20_MAY_BE_UNTOUCHED = {("oqupy/mps_mpo.py", "compute_nn_gate"),
+                        ("oqupy/mps_mpo.py", "compute_trotter_layers")}
 
 # public functions whose returned arrays must be new objects on every call
 C20_RETURN_ENTRIES = [("oqupy/operators.py", None), ("oqupy/util.py", ["create_delta"])]
@@ -3695,6 +3769,14 @@ class _ArrayFlow:
             src = self.value_obj(e.value)
             if src is not None:
                 return self.new_obj("(.viewOf %d)" % src, e.lineno)
+        if isinstance(e, (ast.BinOp, ast.UnaryOp)):
+            if id(e) not in self.done:
+                self.done[id(e)] = None
+                parts = [e.left, e.right] if isinstance(e, ast.BinOp) else [e.operand]
+                srcs = [self.value_obj(x) for x in parts]
+                if any(x is not None for x in srcs):
+                    self.done[id(e)] = self.new_obj("(.computed)", e.lineno)
+            return self.done[id(e)]
         if isinstance(e, ast.Call):
             if id(e) not in self.done:
                 self.done[id(e)] = None
@@ -3938,8 +4020,9 @@ class _ArrayFlow:
                                                                           ast.unparse(v)))
             return
         if isinstance(s, ast.AugAssign):
-            tgt = self.obj_of(s.target) if not isinstance(s.target, ast.Subscript) \
-                else self.obj_of(s.target.value)
+            tgt = self.obj_of(s.target)
+            if tgt is None and isinstance(s.target, ast.Subscript):
+                tgt = self.obj_of(s.target.value)
             if tgt is not None:
                 self.ops.append("(.writeData %d)" % tgt)
             self.scan_calls(s.value)
@@ -4099,7 +4182,7 @@ def _c20_array_sites(src):
                 if fl.ops not in seen_ops:
                     seen_ops.append(fl.ops)
                     paths.append(fl)
-            if not track.startswith("self."):
+            if not track.startswith("self.") and (rel, qual) not in C20_MAY_BE_UNTOUCHED:
                 if not any(fl.ops for fl in paths):
                     raise Untranslatable("%s:%s: nothing is done with %s any more" % (rel, qual, track))
                 paths = [fl for fl in paths if fl.ops]
@@ -4304,6 +4387,12 @@ def frag_cachekeys(src):
             for r, q, a, u, l, g in _c20_derived_stores(src)]
     out.append("/-- attributes a (re-)initialisation derives from caller-owned mutable objects -/\n"
                "def derivedStores : List DerivedStore := [\n%s\n]\n" % ",\n".join(drow))
+    grow = ["  { file := %s, func := %s, attr := %s, line := %d, used := %s, keyedOn := %s }"
+            % (_lstr(r), _lstr(q), _lstr(a), l, _llist(map(_lstr, u)), _llist(map(_lstr, k)))
+            for r, q, a, l, u, k in _c20_getter_stores(src)]
+    out.append("/-- attributes written by getters of Control / ChainControl -/\n"
+               "def getterStores : List GetterStore := [%s]\n"
+               % (("\n" + ",\n".join(grow) + "\n") if grow else ""))
     rrow = ["  { file := %s, func := %s, line := %d, kind := .%s }" % (_lstr(r), _lstr(q), l, k)
             for r, q, l, k in _c20_return_sites(src)]
     out.append("/-- where the arrays returned by the public operator helpers come from -/\n"
@@ -4833,25 +4922,41 @@ def _ff_init(src, out):
 
 def _ff_remove(src, out):
     fn = src.function(FF_REL, "FileProcessTensor.remove")
-    steps = []
-    for s in _ff_body(fn):
+
+    def only(stmts, what):
+        if not stmts:
+            return "false"
+        if len(stmts) == 1 and what(stmts[0]):
+            return "true"
+        raise Untranslatable("remove(): branch %s" % ast.unparse(stmts[0]))
+
+    def is_delete(x):
+        return ast.unparse(x) == "os.remove(self._filename)"
+
+    def is_raise(x):
+        return isinstance(x, ast.Raise)
+
+    def one(s):
         u = ast.unparse(s)
         if u == "self.close()":
-            steps.append("RemoveStep.close")
-        elif u == "os.remove(self._filename)":
-            steps.append("RemoveStep.delete")
-        elif isinstance(s, ast.If) and ast.unparse(s.test) == "self._removeable":
-            def only(stmts, what):
-                if not stmts:
-                    return "false"
-                if len(stmts) == 1 and what(stmts[0]):
-                    return "true"
-                raise Untranslatable("remove(): branch %s" % ast.unparse(stmts[0]))
-            d = only(s.body, lambda x: ast.unparse(x) == "os.remove(self._filename)")
-            r = only(s.orelse, lambda x: isinstance(x, ast.Raise))
-            steps.append("RemoveStep.guarded %s %s" % (d, r))
-        else:
-            raise Untranslatable("remove(): statement %s" % u)
+            return ["RemoveStep.close"]
+        if is_delete(s):
+            return ["RemoveStep.delete"]
+        if isinstance(s, ast.If) and ast.unparse(s.test) == "self._removeable":
+            return ["RemoveStep.guarded %s %s" % (only(s.body, is_delete), only(s.orelse, is_raise))]
+        if isinstance(s, ast.If) and ast.unparse(s.test) == "not self._removeable":
+            return ["RemoveStep.guarded %s %s" % (only(s.orelse, is_delete), only(s.body, is_raise))]
+        if isinstance(s, ast.If) and not s.orelse and ast.unparse(s.test) in (
+                "self._f", "self._f is not None and self._f", "bool(self._f)"):
+            inner = []
+            for x in s.body:
+                inner.extend(one(x))
+            return ["(RemoveStep.ifOpen (%s))" % t.strip("()") if not t.startswith("(RemoveStep.ifOpen")
+                    else "(RemoveStep.ifOpen %s)" % t for t in inner]
+        raise Untranslatable("remove(): statement %s" % u)
+    steps = []
+    for s in _ff_body(fn):
+        steps.extend(one(s))
     out.append("/-- %s:%d  FileProcessTensor.remove: statements in order -/\n"
                "def removeSteps : List RemoveStep := [%s]\n"
                % (FF_REL, fn.lineno, ", ".join(steps)))
@@ -12499,6 +12604,68 @@ def frag_corrbath(src):
                "(change_only, T > 0): (.., number of n_th(freq) terms, other terms) -/\n"
                "def occupation_initial_table : List (Bool × Bool × Nat × Nat) :=\n  [%s]\n"
                % (rel, ", ".join(orows)))
+    # coupling prefactors: which band width multiplies the spectral density of which frequency
+    SD = "self._bath.correlations.spectral_density"
+
+    class _SdSubst(ast.NodeTransformer):
+        def __init__(self, fnode):
+            self.alias = {SD}
+            for n in ast.walk(fnode):
+                if isinstance(n, ast.Assign) and len(n.targets) == 1 and isinstance(n.targets[0], ast.Name) \
+                        and ast.unparse(n.value) == SD:
+                    self.alias.add(n.targets[0].id)
+
+        def sd_arg(self, n):
+            if isinstance(n, ast.Call) and ast.unparse(n.func) in self.alias and len(n.args) == 1 \
+                    and not n.keywords and isinstance(n.args[0], ast.Name):
+                return n.args[0].id
+            return None
+
+        def visit_BinOp(self, n):
+            if isinstance(n.op, ast.Pow) and self.sd_arg(n.left) is not None \
+                    and isinstance(n.right, ast.Constant) and n.right.value == 0.5:
+                return ast.Name(id="sqrtJ_" + self.sd_arg(n.left), ctx=ast.Load())
+            return self.generic_visit(n)
+
+        def visit_Call(self, n):
+            if self.sd_arg(n) is not None:
+                return ast.Name(id="J_" + self.sd_arg(n), ctx=ast.Load())
+            return self.generic_visit(n)
+
+    cparams = ["dw_0", "dw_1", "sqrtJ_freq_1", "sqrtJ_freq_2"]
+    sub = _SdSubst(fcor)
+    for nm in ("coup_1", "coup_2"):
+        hs = src.assignment(fcor, nm)
+        if len(hs) != 1:
+            raise Untranslatable("correlation: %s" % nm)
+        tr = _C07K(cparams)
+        term = tr.expr(sub.visit(ast.parse(ast.unparse(hs[0].value), mode="eval").body))
+        out.append(_c07_kdef("correlation_" + nm, term, cparams,
+                             "%s:%d  correlation: %s = %s  (sqrtJ_f = spectral_density(f)**0.5)"
+                             % (rel, hs[0].lineno, nm, ast.unparse(hs[0].value)), with_E=False))
+    use = [ast.unparse(st.value) for st in body[i0[0]:i0[0] + 1]]
+    if not use[0].replace(" ", "").endswith(")*coup_1*coup_2"):
+        raise Untranslatable("correlation: the kernel sum is not multiplied by coup_1 * coup_2")
+    out.append("/-- correlation = <kernel sum> * coup_1 * coup_2 -/\n"
+               "def correlation_coup_use : String := \"<kernel sum> * coup_1 * coup_2\"\n")
+    hs = src.assignment(focc, "coup")
+    if len(hs) != 1:
+        raise Untranslatable("occupation: coup")
+    tr = _C07K(["dw", "J_freq"])
+    term = tr.expr(_SdSubst(focc).visit(ast.parse(ast.unparse(hs[0].value), mode="eval").body))
+    out.append(_c07_kdef("occupation_coup", term, ["dw", "J_freq"],
+                         "%s:%d  occupation: coup = %s  (J_f = spectral_density(f))"
+                         % (rel, hs[0].lineno, ast.unparse(hs[0].value)), with_E=False))
+    ouse = [ast.unparse(h.value) for h in src.assignment(focc, "bath_occupation")][:1]
+    if not ouse or not ouse[0].replace(" ", "").endswith(").real*coup"):
+        raise Untranslatable("occupation: the cumulated kernel sum is not multiplied by coup")
+    dwdef = {}
+    for fq, fnode in (("correlation", fcor), ("occupation", focc)):
+        an = [a.arg for a in fnode.args.args]
+        dfl = dict(zip(an[len(an) - len(fnode.args.defaults):], [ast.unparse(d) for d in fnode.args.defaults]))
+        dwdef[fq] = dfl.get("dw", "")
+    out.append("/-- defaults of `dw` -/\ndef dw_defaults : List (String × String) := %s\n"
+               % _c07_lpairs(sorted(dwdef.items())))
     # other int()/np.round/np.floor/np.ceil conversions in the class would be a new site
     fcls = src.function(rel, "TwoTimeBathCorrelations")
     conv = sorted(ast.unparse(n) for n in ast.walk(fcls) if isinstance(n, ast.Call)
